@@ -316,6 +316,8 @@ func C05(c *Ctx) {
 	r.Rule("R05.4", "a group leaves the timeout list only when it ends: every removeFromTimeoutList of the transaction manager is preceded on every path by a change of the group's global state (a store to GlobalState or setFSM(&txInfo.GlobalState, ..)); a group whose state is still BEGIN stays listed, otherwise it never times out and its finished children are never rolled back.")
 	r.Rule("R05.5", "who is told to roll back is decided on the stored statuses: in processExecuteEvent getTimeoutIBTPsMap - which puts a destination chain into the timeout notification only when its child already reached a final status - runs before setTimeoutRollback overwrites every child with BEGIN_ROLLBACK; in the other order no destination chain of a timed-out group is notified and succeeded children are never rolled back (shared with C06 R06.10).")
 	c.expiryReadBeforeOverwrite("R05.5")
+	r.Rule("R05.7", "succeeded children are found before their statuses are overwritten: in the transaction manager a test 'child status == SUCCESS' on an entry of a group's ChildTxInfo (the test that decides which destination chains are told to roll back) is never reachable after the statuses of that group were overwritten in bulk - by a loop in the same function that assigns other entries than the one just read, or by a helper (changeMultiTxStatus) that does; after a failure receipt every child reads BEGIN_FAILURE, no child is found, and the destination chains holding succeeded children are never told to roll back.")
+	c.succeededBeforeOverwrite("R05.7")
 	r.Rule("R05.6", "a group belongs to its source: the global id of a one-to-many transaction (genGlobalTxID) is the hash of the source service id (ibtp.From) and the declared destination -> index map; without the source two services that declare the same map share one group record, and children of one complete, fail or time out the other's group.")
 	if gg := c.fn("R05.6", "internal/executor/contracts.genGlobalTxID"); gg != nil {
 		fields, _, nh := preimageFields(gg, func(call ssa.CallInstruction) bool {
@@ -376,4 +378,116 @@ func shortFnName(spec string) string {
 		return spec[i+1:]
 	}
 	return spec
+}
+
+// succeededBeforeOverwrite: R05.7.
+func (c *Ctx) succeededBeforeOverwrite(rule string) {
+	r := c.R
+	isChildMap := func(v ssa.Value) bool {
+		_, f, _, ok := core.FieldOf(core.Strip(v))
+		return ok && f == "ChildTxInfo"
+	}
+	// functions that overwrite child statuses in a loop (bulk)
+	bulk := map[*ssa.Function]bool{}
+	var tmFns []*ssa.Function
+	for _, fn := range c.P.ModuleFuncs(true) {
+		if core.PkgOf(fn) != "internal/executor/contracts" || len(fn.Blocks) == 0 {
+			continue
+		}
+		tmFns = append(tmFns, fn)
+		for _, b := range fn.Blocks {
+			for _, in := range b.Instrs {
+				if mu, ok := in.(*ssa.MapUpdate); ok && isChildMap(mu.Map) && core.InLoop(mu) {
+					bulk[fn] = true
+				}
+			}
+		}
+	}
+	nTests := 0
+	for _, fn := range tmFns {
+		// tests: BinOp EQL/NEQ between a value read from a ChildTxInfo entry and the constant SUCCESS
+		type test struct {
+			at  *ssa.BinOp
+			rng *ssa.Range // the range that produced the entry, nil for a lookup
+		}
+		var tests []test
+		for _, b := range fn.Blocks {
+			for _, in := range b.Instrs {
+				bo, ok := in.(*ssa.BinOp)
+				if !ok || (bo.Op != token.EQL && bo.Op != token.NEQ) {
+					continue
+				}
+				var val ssa.Value
+				switch {
+				case enumName(core.Strip(bo.Y)) == "TransactionStatus_SUCCESS":
+					val = bo.X
+				case enumName(core.Strip(bo.X)) == "TransactionStatus_SUCCESS":
+					val = bo.Y
+				default:
+					continue
+				}
+				var rng *ssa.Range
+				fromChild := core.Mentions(val, func(w ssa.Value) bool {
+					switch x := w.(type) {
+					case *ssa.Lookup:
+						return isChildMap(x.X)
+					case *ssa.Next:
+						if rg, ok := x.Iter.(*ssa.Range); ok && isChildMap(rg.X) {
+							rng = rg
+							return true
+						}
+					}
+					return false
+				})
+				if fromChild {
+					tests = append(tests, test{bo, rng})
+				}
+			}
+		}
+		if len(tests) == 0 {
+			continue
+		}
+		// overwrites in fn: bulk helpers called, and own map updates that do not write the entry just read
+		for ti, t := range tests {
+			nTests++
+			bad := ""
+			for _, b := range fn.Blocks {
+				for _, in := range b.Instrs {
+					var w ssa.Instruction
+					what := ""
+					switch x := in.(type) {
+					case *ssa.MapUpdate:
+						if !isChildMap(x.Map) {
+							continue
+						}
+						// writing the entry the same range just produced is reading before overwriting, per entry
+						if t.rng != nil && core.Mentions(x.Key, func(v ssa.Value) bool {
+							nx, ok := v.(*ssa.Next)
+							return ok && nx.Iter == ssa.Value(t.rng)
+						}) {
+							continue
+						}
+						if !core.InLoop(x) {
+							continue // a single entry (the reporting child itself)
+						}
+						w, what = x, "the loop at "+c.P.Pos(x.Pos())
+					case ssa.CallInstruction:
+						g := core.StaticCallee(x)
+						if g == nil || !bulk[g] || g == fn {
+							continue
+						}
+						w, what = x, "the call of "+shortFn(g)+" at "+c.P.Pos(x.Pos())
+					default:
+						continue
+					}
+					rs := core.Reach([]core.Point{core.After(w)}, nil, nil)
+					if rs.Has(t.at) {
+						bad = what + " overwrites the child statuses of the group, and the test at " + c.P.Pos(t.at.Pos()) + " runs afterwards"
+					}
+				}
+			}
+			r.Check(bad == "", rule, fmt.Sprintf("%s: child status tested against SUCCESS before any bulk overwrite #%d", shortFn(fn), ti+1), c.P.Pos(t.at.Pos()), "no bulk overwrite of ChildTxInfo reaches this test", bad+": no child is SUCCESS any more, so the destination chains that hold already-succeeded children are not told to roll them back although the group failed")
+		}
+	}
+	r.Floor(rule, "tests of a child status against SUCCESS in the contracts", nTests, 2)
 }
